@@ -75,14 +75,54 @@ def natural_refuted(facts, x):
 
 
 # ---- list of distinct hex keys
+def _copies_of(facts, x):
+    """x itself and comprehensions [e for e in x] (identity element, no filter): same elements"""
+    out = [x]
+    for f in facts:
+        for t in _subterms(f):
+            if isinstance(t, tuple) and len(t) == 5 and t[0] == "comp" and t[1] in ("list", "set") and t[2] == x and isinstance(t[3], tuple) and t[3][:2] == ("elem", x) and t not in out:
+                out.append(t)
+    return out
+
+
+def _subterms(t):
+    if isinstance(t, tuple):
+        yield t
+        for y in t:
+            yield from _subterms(y)
+    elif isinstance(t, frozenset):
+        for y in t:
+            yield from _subterms(y)
+
+
+def _distinct_lits(facts, x):
+    """(holds, refuted) for 'x has no duplicates' stated as len(set(X)) ==/>= len(X) with X ~ x"""
+    holds = refuted = False
+    xs = _copies_of(facts, x)
+    for X in xs:
+        for Y in xs:
+            ls, ll = CallT("builtin:len", [CallT("builtin:set", [X])]), CallT("builtin:len", [Y])
+            for f in facts:
+                if f[0] == "eq" and {f[1], f[2]} == {ls, ll}:
+                    holds = True
+                if f[0] == "ne" and {f[1], f[2]} == {ls, ll}:
+                    refuted = True
+                if f[0] == "cmp":
+                    # len(set(x)) <= len(x) always: ">=" means equal, "<" means a duplicate exists
+                    if (f[1], f[2], f[3]) in ((">=", ls, ll), ("<=", ll, ls)):
+                        holds = True
+                    if (f[1], f[2], f[3]) in (("<", ls, ll), (">", ll, ls)):
+                        refuted = True
+    return holds, refuted
+
+
 def keylist_missing(st, x):
     out = []
     if not st.holds(("type", x, frozenset(["list"]))):
         out.append("is a list")
     if not any(not hex_missing(State(facts=set(body) | st.facts), el, 64) for el, body in forall_bodies(st, x)):
         out.append("every element is a 64-hex key")
-    ls, ll = CallT("builtin:len", [CallT("builtin:set", [x])]), CallT("builtin:len", [x])
-    if not (st.holds(("eq", ls, ll)) or st.holds(("eq", ll, ls))):
+    if not _distinct_lits(st.closure(), x)[0]:
         out.append("no duplicate keys")
     return out
 
@@ -90,8 +130,7 @@ def keylist_missing(st, x):
 def keylist_refuted(facts, x):
     if _nottype(facts, x, ["list"]):
         return True
-    ls, ll = CallT("builtin:len", [CallT("builtin:set", [x])]), CallT("builtin:len", [x])
-    if any(f[0] == "ne" and {f[1], f[2]} == {ls, ll} for f in facts):
+    if _distinct_lits(facts, x)[1]:
         return True
     for f in facts:
         for t in _elems(f, x):
